@@ -516,75 +516,17 @@ class IrToWasmCompiler:
         "CONSTF64": "f64.const",
     }
 
+    # All casts between the scalar types, see do_cast:
     cast_operators = {
-        # 64 -- 64
-        "I64TOI64",
-        "I64TOU64",
-        "U64TOI64",
-        "U64TOU64",
-        # 32 -- 64
-        "U32TOI64",
-        "U32TOU64",
-        # 64 -- 32
-        "U64TOU32",
-        "I64TOU32",
-        # 32 --- 32
-        "I32TOI32",
-        "U32TOU32",
-        # 32 --- 8
-        "I32TOI8",
-        "I8TOI32",
-        "I32TOU8",
-        "U8TOI32",
-        # 32 --- 16
-        "I32TOI16",
-        "I16TOI32",
-        "I32TOU16",
-        "U16TOI32",
-    }
-
-    cast_operators2 = {
-        # float to int:
-        "F32TOI32": ["f32.nearest", "i32.trunc_f32_s"],
-        "F32TOU32": ["f32.nearest", "i64.trunc_f32_u"],
-        "F32TOI64": ["f32.nearest", "i64.trunc_f32_s"],
-        "F32TOU64": ["f32.nearest", "i64.trunc_f32_u"],
-        "F64TOI64": ["f64.nearest", "i64.trunc_f64_s"],
-        "F64TOU64": ["f64.nearest", "i64.trunc_f64_u"],
-        "F64TOI32": ["f64.nearest", "i32.trunc_f64_s"],
-        "F64TOU32": ["f64.nearest", "i64.trunc_f64_u"],
-        # int to float 64:
-        "U64TOF64": ["f64.convert_i64_u"],
-        "I64TOF64": ["f64.convert_i64_s"],
-        "U32TOF64": ["f64.convert_i64_u"],
-        "I32TOF64": ["f64.convert_i32_s"],
-        # int to float 32
-        "I32TOF32": ["f32.convert_i32_s"],
-        "U32TOF32": ["f32.convert_i32_u"],
-        "I64TOF32": ["f32.convert_i64_s"],
-        "U64TOF32": ["f32.convert_i64_u"],
-        # float to float:
-        "F64TOF32": ["f32.demote_f64"],
-        "F32TOF64": ["f64.promote_f32"],
-        # 32 -- 64
-        "I32TOI64": ["i64.extend_i32_s"],
-        "I32TOU64": ["i64.extend_i32_u"],
-        # i64 -- 32
-        "U64TOI32": ["i32.wrap_i64"],
-        "I64TOI32": ["i32.wrap_i64"],
-        # Store u32 in i64 type:
-        "I32TOU32": ["i64.extend_i32_s"],
-        "U32TOI32": ["i32.wrap_i64"],
-        # 32 --- 8
-        "U32TOI8": ["i32.wrap_i64"],
-        "I8TOU32": ["i64.extend_i32_s"],
-        "U32TOU8": ["i32.wrap_i64"],
-        "U8TOU32": ["i64.extend_i32_u"],
-        # 32 --- 16
-        "U32TOI16": ["i32.wrap_i64"],
-        "I16TOU32": ["i64.extend_i32_s"],
-        "U32TOU16": ["i32.wrap_i64"],
-        "U16TOU32": ["i64.extend_i32_u"],
+        f"{str(from_ty).upper()}TO{str(to_ty).upper()}": (from_ty, to_ty)
+        for from_ty in (
+            ir.i8, ir.u8, ir.i16, ir.u16, ir.i32, ir.u32, ir.i64, ir.u64,
+            ir.f32, ir.f64,
+        )
+        for to_ty in (
+            ir.i8, ir.u8, ir.i16, ir.u16, ir.i32, ir.u32, ir.i64, ir.u64,
+            ir.f32, ir.f64,
+        )
     }
 
     reg_operators = {
@@ -691,11 +633,8 @@ class IrToWasmCompiler:
             self.stack += 1
         elif tree.name in self.cast_operators:
             self.do_tree(tree[0])
-        elif tree.name in self.cast_operators2:
-            self.do_tree(tree[0])
-            opcodes = self.cast_operators2[tree.name]
-            for opcode in opcodes:
-                self.emit(opcode)
+            from_ty, to_ty = self.cast_operators[tree.name]
+            self.do_cast(from_ty, to_ty)
         elif tree.name == "CALL":
             function_name, argv, rv = tree.value
             for _, argument in argv:
@@ -776,6 +715,53 @@ class IrToWasmCompiler:
             wasm_ty = ty_map[type(value)]
             self.local_vars.append(wasm_ty)
         return self.local_var_map[value]
+
+    def emit_wrap(self, ir_ty):
+        """Wrap the value on top of the stack to the range of its type.
+
+        Values of the types i8, u8, i16 and u16 live in a wasm i32 and
+        values of type u32 in a wasm i64. The upper bits of such a value
+        are not defined (arithmetic does not wrap, and a cast between
+        i8 and u8 generates no code at all), so wrap the value where it
+        matters.
+        """
+        if ir_ty.is_integer and ir_ty.bits < 32:
+            if ir_ty.is_signed:
+                self.emit("i32.const", 32 - ir_ty.bits)
+                self.emit("i32.shl")
+                self.emit("i32.const", 32 - ir_ty.bits)
+                self.emit("i32.shr_s")
+            else:
+                self.emit("i32.const", (1 << ir_ty.bits) - 1)
+                self.emit("i32.and")
+        elif ir_ty is ir.u32:
+            self.emit("i64.const", 0xFFFFFFFF)
+            self.emit("i64.and")
+
+    def do_cast(self, from_ty, to_ty):
+        """Convert the value on top of the stack from one type to another."""
+        from_wasm, to_wasm = self.get_ty(from_ty), self.get_ty(to_ty)
+        if from_ty.is_integer and to_ty.is_integer:
+            # Extend according to the source type, or truncate:
+            if to_ty.bits > from_ty.bits:
+                self.emit_wrap(from_ty)
+            if from_wasm == "i32" and to_wasm == "i64":
+                sign = "_s" if from_ty.is_signed else "_u"
+                self.emit("i64.extend_i32" + sign)
+            elif from_wasm == "i64" and to_wasm == "i32":
+                self.emit("i32.wrap_i64")
+        elif from_ty.is_integer:
+            self.emit_wrap(from_ty)
+            sign = "_s" if from_ty.is_signed else "_u"
+            self.emit(f"{to_wasm}.convert_{from_wasm}{sign}")
+        elif to_ty.is_integer:
+            # Float to integer truncates towards zero:
+            sign = "_s" if to_ty.is_signed or to_ty.bits < 32 else "_u"
+            self.emit(f"{to_wasm}.trunc_{from_wasm}{sign}")
+        elif from_ty is ir.f32 and to_ty is ir.f64:
+            self.emit("f64.promote_f32")
+        elif from_ty is ir.f64 and to_ty is ir.f32:
+            self.emit("f32.demote_f64")
 
     def emit(self, opcode, *args):
         """Emit a single wasm instruction"""
